@@ -46,6 +46,12 @@ def h1_session(rng):
         if rng.random() < 0.15:
             hs += [(b"Upgrade", rng.choice([b"websocket", b"h2c"])), (b"Sec-WebSocket-Key", b"dGhlIHNhbXBsZSBub25jZQ=="),
                    (b"Sec-WebSocket-Version", b"13")]
+        if rng.random() < 0.12:
+            # an h2c upgrade offer with whatever the client likes to call its settings: well formed, not base64, base64 of
+            # something that is no SETTINGS payload, not even ASCII
+            hs += [(b"Connection", b"Upgrade, HTTP2-Settings"), (b"Upgrade", b"h2c"),
+                   (b"HTTP2-Settings", rng.choice([b"AAMAAABkAAQAAP__", b"", b"!!!notbase64", b"AAAA", b"AAMAAABkAAQAAP__AA", b"A", b"\xff\xfe",
+                                                   b"AAIAAAAC", b"AAQAAAAA"]))]
         if rng.random() < 0.1:
             hs.append((b"Expect", b"100-continue"))
         head = method + b" " + target + b" HTTP/1." + rng.choice([b"1", b"1", b"0"]) + b"\r\n"
